@@ -169,7 +169,10 @@ class WeightedProbabilityBasedSquaredError(ProbabilityBasedLossFunction):
                 )
 
                 extracted_mat_inv = np.linalg.inv(extracted_mat)
-                weight_matrix[: row - 1, : col - 1] = extracted_mat_inv
+                # the numerical inverse of a symmetric matrix is symmetric only up to rounding
+                weight_matrix[: row - 1, : col - 1] = (
+                    extracted_mat_inv + extracted_mat_inv.T
+                ) / 2
                 weight_matrices.append(weight_matrix)
 
             self.set_weight_matrices(weight_matrices)
